@@ -206,6 +206,26 @@ theorem windows_end_with_source_when (raiseAt : Option Nat) (pool : Nat) (s : Wh
     (∀ id ∈ [s.cur], id < s.b.wins.length → s.b.endedOf id = none → s'.b.endedOf id = some e) ∧ s'.b.outerStopped = true :=
   Whn.ends raiseAt pool s t _ e rfl hl
 
+/-- **windows_end_when_mapper_raises.** `window_when_`: when the closing mapper raises (its `s.calls`-th call), the
+open window fails with that exception and the outer observer is stopped (shared `on_error`; repo fix c2c9edd). -/
+theorem windows_end_when_mapper_raises (pool : Nat) (s : Whn α) :
+    let s' := Whn.createClosing (some s.calls) pool s
+    (∀ id ∈ [s.cur], id < s.b.wins.length → s.b.endedOf id = none →
+        s'.b.endedOf id = some (some s!"cm{s.calls}")) ∧ s'.b.outerStopped = true := by
+  simp only [Whn.createClosing, beq_self_eq_true, if_true, Whn.onEnd, Base.os_outerEnd, and_true]
+  intro id hid hlt hnn
+  rw [Base.endedOf_outerEnd]
+  exact endsAll_single s.b s.cur (some s!"cm{s.calls}") id hid hlt hnn
+
+/-- **when_mapper_raise_asis** (AsIs witness, the handler before repo fix c2c9edd): the raising mapper reached only
+the outer observer — the open window stays open and the source stays subscribed. -/
+theorem when_mapper_raise_asis :
+    let s0 : Whn Nat := { b := (((({ now := 200 } : Base Nat).newWin.1).outerNext 0).subscribe 0), cur := 0 }
+    let s := Whn.createClosingAsIs (some 0) s0
+    s.b.endedOf 0 = none ∧ s.b.outerStopped = true ∧ s.b.live = [0] ∧
+      (Whn.createClosing (some 0) 1 s0).b.endedOf 0 = some (some "cm0") ∧ (Whn.createClosing (some 0) 1 s0).b.live = [] := by
+  decide
+
 theorem windows_end_with_source_time (shift : Nat) (s : Tim α) (t : Nat) (e : Option Err)
     (hl : s.b.live.contains 0 = true) :
     let s' := (Tim.mach shift).step s t (.src 0 (endNotif e))
